@@ -102,6 +102,20 @@ func (e *Engine) startQE(s *Submission, r res.Resource, arg string) {
 	}
 	if q.Subject == "" {
 		q.SubFailed = true
+	} else {
+		// C15: the subject is fresh - no earlier query event of this
+		// service, in this or an earlier Serve call, was announced with it
+		// (a peer still holding the earlier subject would reach this event)
+		e.H.mu.Lock()
+		for _, o := range e.QEs {
+			if o != q && o.Subject == q.Subject {
+				e.H.mu.Unlock()
+				e.H.Violate("C15", "query-subject-reused", "", fmt.Sprintf("query event %d on %s was announced with the subject of query event %d on %s", q.ID, q.RName, o.ID, o.RName))
+				e.H.mu.Lock()
+				break
+			}
+		}
+		e.H.mu.Unlock()
 	}
 }
 
